@@ -87,7 +87,8 @@ func (r *run) pull(_ context.Context, image string) (*packagetypes.RawPackage, e
 	if r.inflight[image] > 1 {
 		r.violate("more than one registry pull in flight for image %s (pull #%d started while another is running)", image, p.id)
 	}
-	files := packagetypes.Files{"manifest.yaml": []byte(fmt.Sprintf("pull-%d-%s", p.id, image))}
+	// a regular file, and an empty file as the tar importer produces it (zero length, spare capacity)
+	files := packagetypes.Files{"manifest.yaml": []byte(fmt.Sprintf("pull-%d-%s", p.id, image)), "empty.yaml": make([]byte, 0, 16), "nil.yaml": nil}
 	orig := files.DeepCopy()
 	r.source[p.id] = orig
 	r.mu.Unlock()
@@ -143,6 +144,9 @@ func (r *run) caller(rm *packageimport.RequestManager, ci int) {
 				b[0] = byte('A' + ci)
 			}
 			pkg.Files[fmt.Sprintf("added-by-%d-%d", ci, k)] = []byte{1}
+			// grow the empty files in place (append within capacity does not reallocate)
+			pkg.Files["empty.yaml"] = append(pkg.Files["empty.yaml"], byte('A'+ci))
+			pkg.Files["nil.yaml"] = append(pkg.Files["nil.yaml"], byte('A'+ci))
 		}
 	}
 }
@@ -189,6 +193,11 @@ func (r *run) finalCheck(deadlock string) {
 			wb[0] = byte('A' + c.caller)
 			if string(c.files["manifest.yaml"]) != string(wb) {
 				r.violate("caller %d call %d: its copy reads %q, expected %q: another caller's mutation is visible (shared backing array)", c.caller, c.idx, c.files["manifest.yaml"], wb)
+			}
+			for _, f := range []string{"empty.yaml", "nil.yaml"} {
+				if got := c.files[f]; len(got) != 1 || got[0] != byte('A'+c.caller) {
+					r.violate("caller %d call %d: its copy of the initially empty file %s reads %q, expected its own single byte %q: another caller's write is visible (shared backing array)", c.caller, c.idx, f, got, string(rune('A'+c.caller)))
+				}
 			}
 			for k := range c.files {
 				if strings.HasPrefix(k, "added-by-") && k != fmt.Sprintf("added-by-%d-%d", c.caller, c.idx) {
